@@ -36,7 +36,7 @@ def _gen(rng, i=None):
         name, prog = 'tmpl:zoo', gen.tmpl_zoo(rng)
     elif k == -1:
         # the compiled program has its own implementation of stack 0 / input lines
-        name, prog = 'tmpl:stack0_data', gen.tmpl_stack0_data(rng, nan_share=0.5)
+        name, prog = 'tmpl:stack0_data', gen.tmpl_stack0_data(rng, nan_share=0.6)
     elif k < 0.3:
         name, prog = 'tmpl:handover', gen.tmpl_handover(rng)
     elif k < 0.4:
